@@ -100,6 +100,13 @@ def shards(tier, seed):
     for (planet, orb), idxs in sorted(groups.items()):
         out.append({"name": "%s-%s" % (planet, "orbit" if orb else "syn"),
                     "finders": idxs, "full": tier == "thorough"})
+    # every perihelion and aphelion of the Earth, -1999..3998, both tiers
+    for i, f in enumerate(FINDERS):
+        if f[0] == "Earth" and f[3] in ("peri", "aph"):
+            for y0 in (-1999, 1):
+                out.append({"name": "Earth-all-%s-%d" % (f[3], y0),
+                            "allyears": [i, y0, y0 + 2000 if y0 < 0
+                                         else 3999], "full": False})
     return out
 
 
@@ -467,6 +474,52 @@ def case_newyear(mon, fi, years):
             [planet, meth, len(years)])
 
 
+def case_allyears(mon, fi, y0, y1):
+    """Every event of the domain can be had: starting at year y0, each query
+    is placed one period after the previous answer (i.e. at the expected
+    instant of the next event, far from the point where the nearest event
+    changes), until year y1.  Each query must be answered, with an instant
+    within a tenth of a period of the query, and successive answers must be
+    one period apart (a skipped, repeated or displaced event breaks the
+    chain); every 40th event is also judged against VSOP87."""
+    planet, meth, args, kind = FINDERS[fi]
+    P = period_of(fi)
+    q = jd_of_year(float(y0)) + 0.5 * P
+    end = jd_of_year(float(y1))
+    prev = None
+    n = 0
+    while q < end:
+        mon.evals += 1
+        n += 1
+        try:
+            t, extra = call_finder(fi, q)
+        except Exception as ex:
+            mon.dev("finder.no-exception",
+                    {"planet": planet, "finder": meth, "args": list(args),
+                     "query": q, "raised": repr(ex)},
+                    key_event(planet, kind, None, ex, q))
+            prev = None
+            q += P
+            continue
+        mon.ok("finder.no-exception")
+        if prev is not None:
+            gap = (t - prev) / P
+            mon.check("spacing.one-period", 0.97 <= gap <= 1.03,
+                      lambda: {"planet": planet, "finder": meth,
+                               "args": list(args), "query": q,
+                               "result_a": prev, "result_b": t,
+                               "periods": gap})
+            mon.check("result.within-one-period", abs(t - q) <= 0.1 * P,
+                      lambda: {"planet": planet, "finder": meth, "query": q,
+                               "result": t, "periods": (t - q) / P})
+        prev = t
+        if n % 40 == 1:
+            judge_event(mon, fi, q, t, extra)
+        q = t + P
+    mon.cls("every-event-of-the-domain", (fi, y0, y1),
+            [planet, meth, list(args), y0, y1, n])
+
+
 def case_leapday(mon, fi, year):
     """Query on 29 February of a Julian century year (a date the proleptic
     Gregorian calendar does not have)."""
@@ -479,10 +532,14 @@ def case_leapday(mon, fi, year):
 
 
 CASES = {"history": history.case, "sweep": case_sweep, "event": case_event, "range": case_range, "edge": case_edge, "newyear": case_newyear,
-         "leapday": case_leapday}
+         "leapday": case_leapday, "allyears": case_allyears}
 
 
 def run(mon, spec):
+    if "allyears" in spec:
+        mon.begin("allyears", spec["allyears"])
+        case_allyears(mon, *spec["allyears"])
+        return
     history.run_cases(mon, ID, spec)
     if not sp.self_check():
         raise RuntimeError("sphere self-check failed")
